@@ -28,7 +28,7 @@ ASSUMPTIONS = [
     "audioSplice with alignToZeroCrossing=True: any praatio error is a rejection (crossing search / boundary shift are documented as unchecked)",
     "audioSplice without alignment: the only accepted rejection is a praatio error when an interval of the target tier straddles the insertion point",
 ]
-REQUIRED_CLASSES = ["splice:coinciding_points", "splice:point_on_insertion_time", "search_edit_search:search_edit_search", "zero_crossing:returned_sign_change", "zero_crossing:returned_zero_sample", "zero_crossing:not_found",
+REQUIRED_CLASSES = ["splice:second_splice_beyond_original_duration", "splice:coinciding_points", "splice:point_on_insertion_time", "search_edit_search:search_edit_search", "zero_crossing:returned_sign_change", "zero_crossing:returned_zero_sample", "zero_crossing:not_found",
                     "zero_crossing:step_too_small", "zero_crossing:nonintegral_step", "splice:returned_aligned",
                     "splice:returned_unaligned", "splice:replaced_region", "tg_boundaries:returned"]
 
@@ -270,6 +270,29 @@ def run_splice(case):
     cl = {"returned_aligned" if align else "returned_unaligned"}
     if t_stop is not None:
         cl.add("replaced_region")
+    if not align:
+        # the new interval covers the inserted audio: the segment's samples sit at the interval's position
+        got_audio = from_bytes(new_audio.frames, width)
+        i0, tie = nearest(new[0][0], rate)
+        if not tie and got_audio[i0:i0 + m] != list(seg):
+            raise Violation("interval-does-not-cover-inserted-audio", f"{what}: samples at the SPLICE interval {new[0]} (index {i0}) are not the inserted segment")
+        if t_stop is None and case.get("second") is not None:
+            # splice again into the returned audio/textgrid, beyond the original duration
+            t2 = new_audio.duration - (case["second"] % 20) / rate
+            if t2 > dur and not any(s_ < t2 < e_ for s_, e_, _ in res["tiers"][0]["entries"]):
+                seg2 = [7, -7] * 5
+                try:
+                    with quiet():
+                        a2, tg2 = praatio_scripts.audioSplice(new_audio, mk_wav(seg2, width, rate), new_tg, "target", "SPLICE2", t2, None, False)
+                except p.errors.PraatioException as e:
+                    raise Violation("rejected-valid-input", f"second {what} at {t2!r}: {type(e).__name__}: {e}")
+                ents2 = [e for e in snap_tg(tg2)["tiers"][0]["entries"] if e[2] == "SPLICE2"]
+                if len(ents2) != 1:
+                    raise Violation("new-interval", f"second splice: {ents2}")
+                j0, tie2 = nearest(ents2[0][0], rate)
+                if not tie2 and from_bytes(a2.frames, width)[j0:j0 + len(seg2)] != seg2:
+                    raise Violation("interval-does-not-cover-inserted-audio", f"second splice at {t2!r} (beyond the original duration {dur}): the audio at the new interval {ents2[0]} is not the inserted segment")
+                cl.add("second_splice_beyond_original_duration")
     if len({i for i, _ in case["points"]}) < len(case["points"]):
         cl.add("coinciding_points")
     if any(i == case["insert"] for i, _ in case["points"]):
@@ -359,7 +382,7 @@ def splice_cases(draw):
         if stop <= ins:
             stop = None
     return {"width": width, "rate": rate, "samples": s, "segment": seg, "intervals": ivs, "points": pts,
-            "insert": ins, "stop": stop, "align": draw(st.booleans())}
+            "insert": ins, "stop": stop, "align": draw(st.booleans()), "second": draw(st.one_of(st.none(), st.integers(0, 19)))}
 
 
 CHECKS = [
